@@ -1,5 +1,5 @@
 SPECIFICATION Spec
-INVARIANTS EvolutionOutcome EvolvedSelfDelimiting EvolvedPrefixRejected EmitCases
+INVARIANTS EvolutionOutcome KindsMeanOutcome EvolvedSelfDelimiting EvolvedPrefixRejected EmitCases
 CHECK_DEADLOCK FALSE
 CONSTANTS
  MaxSteps = 1
